@@ -13,7 +13,7 @@
     No bound on the number of orders, addresses or record names; every interleaving and every
     combination of faults is a history. *)
 From Coq Require Import ZArith.
-From CM Require Import Lib.Str Safe.Model Challenge.Assoc Challenge.Model Solvers.Model Solvers.Proofs.
+From CM Require Import Lib.Str Gen.Consts Safe.Model Challenge.Assoc Challenge.Model Solvers.Model Solvers.Proofs Solvers.E2E Solvers.E2EProofs Solvers.Config Solvers.ConfigProofs Solvers.Tie.
 Open Scope Z_scope.
 
 (** the use count of an address is the number of pending challenges on it; the entry (and with
@@ -120,6 +120,70 @@ Theorem C16_interleavings_leave_nothing : forall sf honour ts ops,
 Proof. exact interleavings_leave_nothing. Qed.
 Print Assumptions C16_interleavings_leave_nothing.
 
+
+(** "Against a conforming ACME server, issuance succeeds with each enabled challenge type":
+    [validates sf feq false s o] runs the validation request of a conforming CA for the challenge
+    of [o] against the state [s] — HTTP-01: the listener of the address is open and the C15 handler
+    model ([http_handle]) answers GET <base>/<token> with Host = identifier with the key
+    authorization; TLS-ALPN-01: the listener is open and the hello [acme-tls/1] with the challenge
+    key as SNI gets this challenge's certificate ([alpn_get]); DNS-01: the TXT record is in the
+    zone.  In EVERY history of the discipline (any number of other orders on the same address /
+    record name, any interleaving, any faults on the other calls), a pending challenge whose own
+    Present went through validates — for as long as it is pending.  [key_fresh]: certmagic
+    serialises orders per identifier (C01); [good_order]: the challenge has the solver's type, the
+    HTTP-01 identifier is a DNS name, the SNI is not empty. *)
+Theorem C16_pending_challenge_validates : forall sf honour feq, (forall x, feq x x = true) ->
+  forall ops e, disc ops = true -> key_fresh ops = true -> dns_fresh ops = true ->
+  In e (spending ops) -> clean_present false (snd e) = true -> good_order (fst e) ->
+  validates sf feq false (srun sf honour ops) (fst e) = true.
+Proof. exact pending_validates. Qed.
+Print Assumptions C16_pending_challenge_validates.
+
+(** ... and when every order is over, no validation request is answered any more *)
+Theorem C16_finished_orders_validate_nothing : forall sf honour feq ops o,
+  disc ops = true -> spending ops = [] -> provider_delete_fault ops = false ->
+  validates sf feq false (srun sf honour ops) o = false.
+Proof. exact finished_validates_nothing. Qed.
+Print Assumptions C16_finished_orders_validate_nothing.
+
+(** the boolean form evaluated on the CA's real validation result in the end-to-end cases holds
+    of the model *)
+Theorem C16_validation_spec_holds : forall sf honour feq, (forall x, feq x x = true) ->
+  forall ops o, existsb (fun e => order_eqb (fst e) o) (spending ops) = true ->
+  validation_spec ops o false (validates sf feq false (srun sf honour ops) o) = true.
+Proof. exact validation_spec_holds. Qed.
+Print Assumptions C16_validation_spec_holds.
+
+
+(** "solver set per issuer configuration" (newACMEClient), for every configuration: exactly one
+    solver per enabled challenge type (DNS-01 exclusively when a DNS solver is configured, else
+    HTTP-01 and TLS-ALPN-01 unless disabled) ... *)
+Theorem C16_solver_per_enabled_type : forall lower is_space c t,
+  length (filter (fun d => ctype_eqb (sd_type d) t) (solver_set lower is_space c)) = if enabled c t then 1%nat else 0%nat.
+Proof. exact solver_per_enabled_type. Qed.
+Print Assumptions C16_solver_per_enabled_type.
+
+(** ... the listener solvers are distributed under the issuer's own key prefix (where every
+    instance's getChallengeInfo looks) and listen on ListenHost and the configured port *)
+Theorem C16_listener_solvers_distributed : forall lower is_space c d,
+  In d (solver_set lower is_space c) -> sd_type d <> TDns ->
+  sd_dist d = true /\ sd_prefix d = ca_prefix lower is_space (i_ik c) /\
+  sd_addr d = join_host_port (i_host c) (itoa (match sd_type d with THttp => http_port c | _ => alpn_port c end)).
+Proof. exact listener_solvers_distributed. Qed.
+Print Assumptions C16_listener_solvers_distributed.
+
+(** the port: the alternate port if set, else a changed package port, else the standard port *)
+Theorem C16_challenge_port : forall base glob alt,
+  (0 < alt -> pick_port base glob alt = alt) /\
+  (alt <= 0 -> 0 < glob -> glob <> base -> pick_port base glob alt = glob) /\
+  (alt <= 0 -> (glob <= 0 \/ glob = base) -> pick_port base glob alt = base).
+Proof. exact pick_port_spec. Qed.
+Print Assumptions C16_challenge_port.
+
+Theorem C16_cfg_spec_holds : forall lower is_space c, cfg_spec lower is_space c (solver_set lower is_space c) = true.
+Proof. exact cfg_spec_holds. Qed.
+Print Assumptions C16_cfg_spec_holds.
+
 (** * Non-vacuity and worked instances *)
 Local Open Scope N_scope.
 Definition ex_sf := safe (tbl_lower []) (tbl_space []).
@@ -160,3 +224,31 @@ Proof.
   apply (merge_step [] _ _ _). apply (merge_step [_; _] _ _ []). apply (merge_step [_] _ _ [_]).
   apply merge_nil. repeat constructor.
 Qed.
+
+(** one order of each challenge type pending together with a second HTTP-01 order on the same
+    address and a second DNS-01 challenge on the same record name: the hypotheses of
+    [C16_pending_challenge_validates] hold, each of the five validates, and after the clean-ups
+    (in another order) none does *)
+Definition ex_addr2 : str := [49;50;55;46;48;46;48;46;49;58;52;52;51].      (* "127.0.0.1:443" *)
+Definition t1 := Order KTlsAlpn ex_addr2 ex_ik (mk_chal TTlsAlpn [99;46;116] [116;53]) [] [].
+Example C16_validation_hypotheses_satisfiable :
+  let h := [SPresent o1 ok; SPresent t1 ok; SPresent d1 ok; SPresent o2 ok; SPresent d2 ok] in
+  let feq := tbl_feq [] in
+  let h' := h ++ [SClean o2 ok; SClean d1 cancelled; SClean o1 cancelled; SClean t1 ok; SClean d2 ok] in
+  (disc h && key_fresh h && dns_fresh h &&
+   forallb (fun o => existsb (fun e => order_eqb (fst e) o && clean_present false (snd e)) (spending h) &&
+                     good_order_b o && validates ex_sf feq false (srun ex_sf true h) o) [o1; t1; d1; o2; d2] &&
+   is_nil (spending h') &&
+   forallb (fun o => negb (validates ex_sf feq false (srun ex_sf true h') o)) [o1; t1; d1; o2; d2] &&
+   (* while o2 is cleaned up and o1 still pending, o1 still validates and o2 does not *)
+   validates ex_sf feq false (srun ex_sf true (h ++ [SClean o2 ok])) o1 &&
+   negb (validates ex_sf feq false (srun ex_sf true (h ++ [SClean o2 ok])) o2)) = true.
+Proof. vm_compute. reflexivity. Qed.
+
+(** a configuration: ListenHost ::1, AltHTTPPort 5002, package HTTPS port 8443 *)
+Example C16_config_instance :
+  let c := ICfg false false false [58;58;49] 5002 0 80 8443 ex_ik in
+  map (fun d => (sd_type d, sd_addr d)) (solver_set (tbl_lower []) (tbl_space []) c) =
+    [(THttp, [91;58;58;49;93;58;53;48;48;50]); (TTlsAlpn, [91;58;58;49;93;58;56;52;52;51])] /\
+  enabled c TDns = false /\ enabled c THttp = true.
+Proof. vm_compute. repeat split; reflexivity. Qed.
